@@ -3323,9 +3323,13 @@ func (c *Checker) replaceTypeParametersInMethodCopy(method *types.Method, typeAr
 	var overloadsCopy []*types.Method
 
 	if different {
+		// the copy must get its own overloads: replacing them in place would rewrite the
+		// signatures stored in the global environment with this call's type arguments
+		newOverloads := make([]*types.Method, len(method.Overloads))
 		for i, overload := range method.Overloads {
-			method.Overloads[i] = c.replaceTypeParametersInMethod(overload, typeArgs, replaceMethodTypeParams)
+			newOverloads[i] = c.replaceTypeParametersInMethodCopy(overload, typeArgs, replaceMethodTypeParams)
 		}
+		methodCopy.Overloads = newOverloads
 	} else {
 		overloadsCopy := make([]*types.Method, len(method.Overloads))
 		for i, overload := range method.Overloads {
